@@ -12,6 +12,8 @@ void divmod(int a, int b, int *q, int *r);
 int pick(int a, int b, int c);
 int pick(double x);
 int stride(int num, int offset = 0, int step = 1);
+int combo(int a, int b, int c, int d);
+int combo(double v, int k = 2, int off = 0);
 int toggle(bool flag, int n = 1, int m = 2);
 int divide(int num, int *rem, int den = 10, bool neg = false);
 void fill2(int nrow, int ncol, double *out);
